@@ -164,6 +164,7 @@ class Build:
         self.tx = None
         self.parsed = None
         self.exc = None
+        self.parse_error = None
         self.state = 'new'       # new | running | held | released | broadcast | failed
         self.started = None
         self.finished = None
@@ -215,9 +216,12 @@ class WalletSim:
         from lbry.wallet.wallet import Wallet
         from lbry.wallet.bip32 import PrivateKey
 
-        class SimLedger(Ledger):
-            network_name = 'simnet'
-            checkpoints = {}
+        SimLedger = getattr(lm, '_simverif_ledger_class', None)
+        if SimLedger is None:      # the ledger registry accepts each id once per process
+            class SimLedger(Ledger):
+                network_name = 'simnet'
+                checkpoints = {}
+            lm._simverif_ledger_class = SimLedger
 
         self.ledger = SimLedger({'db': Database(':memory:'), 'headers': Headers(':memory:'),
                                  'fee_per_byte': self.rate, 'fee_per_name_char': self.name_rate})
@@ -351,15 +355,18 @@ class WalletSim:
             address = self.address_pick(acct, int(chain), int(idx))
             addresses.append(address)
             tx.add_outputs([Output.pay_pubkey_hash(int(amount), self.ledger.address_to_hash160(address))])
+        # the model learns the outputs before the first database job: a concurrent build may select one
+        # as soon as its row exists
+        made = []
+        for i, address in enumerate(addresses):
+            made.append(self._add_utxo(tx.outputs[i], acct, address, height, verified))
         await self.db.insert_transaction(tx)
         for address in dict.fromkeys(addresses):
             self.history[address] = self.history.get(address, '') + f'{tx.id}:{tx.height}:'
             await self.db.save_transaction_io(tx, address, self.ledger.address_to_hash160(address),
                                               self.history[address])
-        made = []
-        for i, address in enumerate(addresses):
-            made.append(self._add_utxo(tx.outputs[i], acct, address, height, verified))
-        await self.accounts[acct].ensure_address_gap()     # update_history does this after saving
+        if spec.get('gap', True):
+            await self.accounts[acct].ensure_address_gap()     # update_history does this after saving
         self.refresh_addresses()
         return made
 
@@ -459,6 +466,8 @@ class WalletSim:
             return []
         if pre_spec == 'all':
             return avail[:MAX_IO]
+        if pre_spec[0] == 'smallest':
+            return sorted(avail, key=lambda u: (u.amount, u.seq))[:max(1, int(pre_spec[1]))]
         idx = sorted({min(len(avail) - 1, int(float(f) * len(avail))) for f in pre_spec})
         return [avail[j] for j in idx]
 
@@ -522,7 +531,6 @@ class WalletSim:
             else:
                 tx = await Transaction.create(inputs, outputs, funding, change, sign=sign)
             b.tx = tx
-            b.parsed = parse_tx(tx.raw)
             b.state = 'held'
         except Exception as e:  # noqa  (CancelledError is never generated)
             b.exc = e
@@ -531,6 +539,11 @@ class WalletSim:
             self.in_flight -= 1
             b.finished = self.loop.elapsed()
             # the task keeps its build for a later release issued from the same task
+        if b.tx is not None:
+            try:
+                b.parsed = parse_tx(b.tx.raw)
+            except Exception as e:  # noqa  the returned object cannot be serialised / parsed back
+                b.parse_error = e
         return b
 
     def settle_model_after_create(self, b):
@@ -564,11 +577,12 @@ class WalletSim:
         b.state = 'released'
         return True
 
-    async def broadcast(self, b, height):
+    async def broadcast(self, b, height, gap=True):
         """Record the built transaction as the sync path would once the network reports it."""
         if b.state != 'held':
             return False
         tx = b.tx
+        self.refresh_addresses()       # the build may have generated a new change address
         spent = [self.utxos[i['op']] for i in b.parsed['ins'] if i['op'] in self.utxos]
         height = int(height)
         if height == 0 and any(not u.confirmed for u in spent):
@@ -584,10 +598,7 @@ class WalletSim:
                 if address in self.addr_info:
                     involved.append(address)
                     mine.append((n, address))
-        for address in dict.fromkeys(involved):
-            self.history[address] = self.history.get(address, '') + f'{tx.id}:{tx.height}:'
-            await self.db.save_transaction_io(tx, address, self.ledger.address_to_hash160(address),
-                                              self.history[address])
+        # model first (synchronously), database second: see fund()
         for u in spent:
             u.spent = True
             u.held_by = None
@@ -596,8 +607,13 @@ class WalletSim:
             made.append(self._add_utxo(tx.outputs[n], self.addr_info[address][0], address,
                                        tx.height, tx.is_verified))
         b.state = 'broadcast'
-        for i in sorted({self.addr_info[a][0] for a in dict.fromkeys(involved)}):
-            await self.accounts[i].ensure_address_gap()
+        for address in dict.fromkeys(involved):
+            self.history[address] = self.history.get(address, '') + f'{tx.id}:{tx.height}:'
+            await self.db.save_transaction_io(tx, address, self.ledger.address_to_hash160(address),
+                                              self.history[address])
+        if gap:
+            for i in sorted({self.addr_info[a][0] for a in dict.fromkeys(involved)}):
+                await self.accounts[i].ensure_address_gap()
         self.refresh_addresses()
         return made
 
